@@ -32,7 +32,9 @@ def judge(rec, opts):
     out = []
     cfg = rec["cfg"]
     templates = {replay.conc(n): replay.conc(t) for n, t in rec["templates"]}
-    layers = [replay.layer(x) for x in rec["data"]]
+    def args():
+        # fresh data for every render (ordinal drops count their accesses)
+        return replay.layer(rec["data"][0])
     main = replay.conc(rec["main"])
     env = replay.make_env(cfg, loader=DictLoader({k: v for k, v in templates.items() if k != main}))
     src = templates[main]
@@ -43,7 +45,7 @@ def judge(rec, opts):
         return out
     except Exception:  # noqa: BLE001
         return out
-    base = replay.outcome(lambda: t.render(**layers[0]))
+    base = replay.outcome(lambda: t.render(**args()))
     if base.get("nonliquid"):
         return out
     try:
@@ -54,21 +56,21 @@ def judge(rec, opts):
         t2 = env.from_string(s1, name=main)
     except Exception as e:  # noqa: BLE001
         return [(f"str-does-not-reparse:{type(e).__name__}:{what}", {"src": src, "str": s1, "error": str(e)[:200]})]
-    r2 = replay.outcome(lambda: t2.render(**layers[0]))
+    r2 = replay.outcome(lambda: t2.render(**args()))
     if not _same(base, r2):
         out.append((f"reparsed-behaves-differently:{what}", {"src": src, "str": s1, "orig": base, "reparsed": r2}))
     s2 = str(t2)
     if s2 != s1:
         try:
             t3 = env.from_string(s2, name=main)
-            r3 = replay.outcome(lambda: t3.render(**layers[0]))
+            r3 = replay.outcome(lambda: t3.render(**args()))
             if not _same(base, r3):
                 out.append((f"second-round-trip-differs:{what}", {"src": src, "str1": s1, "str2": s2, "orig": base, "third": r3}))
         except Exception as e:  # noqa: BLE001
             out.append((f"second-str-does-not-reparse:{type(e).__name__}:{what}", {"src": src, "str1": s1, "str2": s2}))
     try:
         t4 = pickle.loads(pickle.dumps(t))
-        r4 = replay.outcome(lambda: t4.render(**layers[0]))
+        r4 = replay.outcome(lambda: t4.render(**args()))
         if not _same(base, r4):
             out.append((f"unpickled-behaves-differently:{what}", {"src": src, "orig": base, "unpickled": r4}))
     except Exception as e:  # noqa: BLE001
